@@ -85,7 +85,7 @@ structure Stream where
   ssn : BitVec 16 := 0
   nextOrderedMID : BitVec 32 := 0
   nextUnorderedMID : BitVec 32 := 0
-  deriving Inhabited, BEq, Repr
+  deriving Inhabited, BEq, Repr, DecidableEq
 
 structure St where
   cfg : Cfg
@@ -165,7 +165,7 @@ def bytesOf (si : BitVec 16) : List Chunk → Nat
 /-! ## write -/
 
 inductive WriteErr | none | tooLarge | notEstablished | noStream | hang
-  deriving BEq, Repr, Inhabited
+  deriving BEq, Repr, Inhabited, DecidableEq
 
 /-- fragment sizes of `packetize`: `min32(maxPayloadSize, remaining)` until nothing remains
 (`fuel` = the remaining bytes: every round takes at least one) -/
